@@ -2,6 +2,7 @@ package phase0
 
 import (
 	"context"
+	"encoding/json"
 	"errors"
 
 	"github.com/protolambda/zrnt/eth2/beacon/common"
@@ -11,6 +12,13 @@ import (
 )
 
 type Eth1DataVotes []common.Eth1Data
+
+func (li Eth1DataVotes) MarshalJSON() ([]byte, error) {
+	if li == nil {
+		return []byte("[]"), nil // encode as empty list, not null
+	}
+	return json.Marshal([]common.Eth1Data(li))
+}
 
 func (a *Eth1DataVotes) Deserialize(spec *common.Spec, dr *codec.DecodingReader) error {
 	return dr.List(func() codec.Deserializable {
